@@ -928,7 +928,7 @@ func withHelpers(p *Prog, fn *ssa.Function, depth int) []*ssa.Function {
 					})
 				}
 			}
-			if sc == nil || sc.Blocks == nil || seen[sc] || sc.Object() == nil || sc.Object().Exported() || sc.Pkg != fn.Pkg || anchorNames[sc.Name()] {
+			if sc == nil || sc.Blocks == nil || seen[sc] || sc.Object() == nil || sc.Object().Exported() || pkgOfFn(sc) != pkgOfFn(fn) || anchorNames[sc.Name()] {
 				return
 			}
 			seen[sc] = true
@@ -1087,4 +1087,20 @@ func pollHelperTrueOn(call *ssa.Call, name string) bool {
 		}
 	})
 	return ok && sawTrue
+}
+
+
+// pkgOfFn: the package a function belongs to; instances of generic functions
+// have no Pkg of their own and belong to their origin's.
+func pkgOfFn(fn *ssa.Function) *ssa.Package {
+	if fn.Pkg != nil {
+		return fn.Pkg
+	}
+	if o := fn.Origin(); o != nil {
+		return o.Pkg
+	}
+	if fn.Parent() != nil {
+		return pkgOfFn(fn.Parent())
+	}
+	return nil
 }
